@@ -326,7 +326,7 @@ static const rad_attr_param_t rad_attr_params[] = {
 /*  33 */	{ "Proxy-State", 0, 0, RADIUS_ATTR_PARAM_T_STR },
 /*  34 */	{ "Login-LAT-Service", 0, 0, RADIUS_ATTR_PARAM_T_STR },
 /*  35 */	{ "Login-LAT-Node", 0, 0, RADIUS_ATTR_PARAM_T_STR },
-/*  36 */	{ "Login-LAT-Group", 32, 0, RADIUS_ATTR_PARAM_T_STR },
+/*  36 */	{ "Login-LAT-Group", 32, 32, RADIUS_ATTR_PARAM_T_STR },
 /*  37 */	{ "Framed-AppleTalk-Link", 0, 0, RADIUS_ATTR_PARAM_T_INT32 },
 /*  38 */	{ "Framed-AppleTalk-Network", 0, 0, RADIUS_ATTR_PARAM_T_INT32 },
 /*  39 */	{ "Framed-AppleTalk-Zone", 0, 0, RADIUS_ATTR_PARAM_T_STR },
@@ -1068,7 +1068,7 @@ radius_pkt_attr_add(rad_pkt_hdr_p pkt, size_t pkt_buf_size, size_t *pkt_size_ret
 		/* Calc size. */
 		error = radius_pkt_attr_password_encode(NULL, NULL, len, NULL, 0,
 		    NULL, 0, &tm);
-		if (0 != error)
+		if (0 != error && EOVERFLOW != error) /* EOVERFLOW: size only. */
 			return (error);
 		/* Add attribute with empty data. */
 		error = radius_pkt_attr_alloc_raw(pkt, pkt_buf_size, pkt_size_ret,
@@ -1123,13 +1123,13 @@ radius_pkt_attr_add_port(rad_pkt_hdr_p pkt, size_t pkt_buf_size, size_t *pkt_siz
 		return (EINVAL);
 
 	switch (addr->ss_family) {
-	case AF_INET:
-		return (radius_pkt_attr_add(pkt, pkt_buf_size, pkt_size_ret,
-		    type, 4, (uint8_t*)&((struct sockaddr_in*)addr)->sin_port,
+	case AF_INET: /* Port: 32 bit integer in network byte order. */
+		return (radius_pkt_attr_add_uint32(pkt, pkt_buf_size, pkt_size_ret,
+		    type, htonl(ntohs(((struct sockaddr_in*)addr)->sin_port)),
 		    offset_ret));
 	case AF_INET6:
-		return (radius_pkt_attr_add(pkt, pkt_buf_size, pkt_size_ret,
-		    type, 4, (uint8_t*)&((struct sockaddr_in6*)addr)->sin6_port,
+		return (radius_pkt_attr_add_uint32(pkt, pkt_buf_size, pkt_size_ret,
+		    type, htonl(ntohs(((struct sockaddr_in6*)addr)->sin6_port)),
 		    offset_ret));
 	}
 
@@ -1146,12 +1146,12 @@ radius_pkt_attr_add_addr(rad_pkt_hdr_p pkt, size_t pkt_buf_size, size_t *pkt_siz
 	switch (addr->ss_family) {
 	case AF_INET:
 		return (radius_pkt_attr_add(pkt, pkt_buf_size, pkt_size_ret,
-		    type_v4, sizeof(struct sockaddr_in),
+		    type_v4, sizeof(struct in_addr),
 		    (uint8_t*)&((struct sockaddr_in*)addr)->sin_addr,
 		    offset_ret));
 	case AF_INET6:
 		return (radius_pkt_attr_add(pkt, pkt_buf_size, pkt_size_ret,
-		    type_v6, sizeof(struct sockaddr_in6),
+		    type_v6, sizeof(struct in6_addr),
 		    (uint8_t*)&((struct sockaddr_in6*)addr)->sin6_addr,
 		    offset_ret));
 	}
